@@ -564,3 +564,42 @@ def sccs(nodes, succ):
                 if len(comp) > 1 or v in set(succ(v)):
                     out.append(comp)
     return out
+
+
+def switch_key(fn, b):
+    """correlation key of a bool switch: the field place its discriminant was copied from (e.g. '(*_1).safepoints_enabled')"""
+    blk = fn.blocks[b]
+    if blk["k"] != "switch" or blk["on"] != "bool":
+        return None
+    pl = blk.get("place", "")
+    for s in sorted(alias_sources(fn, pl)) if pl.startswith("_") else []:
+        if "." in s:
+            return s
+    return None
+
+
+def reachable_correlated(fn, starts, avoid, decided):
+    """like reachable_from, but a bool switch whose correlation key is in `decided` only follows the decided side
+    (True -> otherwise target, False -> the '0' target). Sound only if nothing writes the keyed place in between
+    (the caller checks that)."""
+    avoid = set(avoid)
+    seen = set(s for s in starts if s not in avoid)
+    dq = deque(seen)
+    while dq:
+        b = dq.popleft()
+        succ = fn.succ(b)
+        k = switch_key(fn, b)
+        blk0 = fn.blocks[b]
+        if blk0["k"] == "switch" and blk0.get("cv") is not None:
+            # compile-time constant condition (cfg!(..)): only the live side
+            tgt = [t for v, t in blk0["targets"] if v == str(blk0["cv"])]
+            succ = tgt if tgt else [blk0["otherwise"]]
+        elif k is not None and k in decided:
+            blk = fn.blocks[b]
+            zero = [t for v, t in blk["targets"] if v == "0"]
+            succ = [blk["otherwise"]] if decided[k] else zero
+        for s in succ:
+            if s not in seen and s not in avoid and not fn.blocks[s]["c"]:
+                seen.add(s)
+                dq.append(s)
+    return seen
